@@ -170,7 +170,8 @@ func (e *Extractor) extractPrefixes(re *syntax.Regexp, depth int) *Seq {
 		// Direct literal: "hello" → ["hello"]
 		bytes := runeSliceToBytes(re.Rune)
 		if len(bytes) > e.config.MaxLiteralLen {
-			bytes = bytes[:e.config.MaxLiteralLen]
+			// A shortened literal is still a prefix of every match, but no longer a match itself.
+			return NewSeq(NewLiteral(bytes[:e.config.MaxLiteralLen], false))
 		}
 		return NewSeq(NewLiteral(bytes, true))
 
@@ -245,12 +246,17 @@ func (e *Extractor) extractPrefixesAlternate(re *syntax.Regexp, depth int) *Seq 
 
 	var allLits []Literal
 	overflowed := false
+	partial := false
 	for _, sub := range re.Sub {
 		seq := e.extractPrefixes(sub, depth+1)
 		if seq.IsEmpty() {
 			// This branch has no prefix requirement (e.g., .*?, .+, empty match)
 			// Therefore the whole alternation has no prefix requirement
 			return NewSeq()
+		}
+		if seq.IsPartialCoverage() {
+			// A nested alternation already lost branches: so does this one.
+			partial = true
 		}
 		for i := 0; i < seq.Len(); i++ {
 			allLits = append(allLits, seq.Get(i))
@@ -278,18 +284,47 @@ func (e *Extractor) extractPrefixesAlternate(re *syntax.Regexp, depth int) *Seq 
 		e.markAllInexact(result)
 		result.Dedup()
 		if result.Len() > e.config.MaxLiterals {
-			result.literals = result.literals[:e.config.MaxLiterals]
+			// Still too many. Shorter prefixes stay necessary for every branch, so try those
+			// first; only when even they do not fit, cut the list, which drops branches.
+			if shorter := e.shrinkToFit(result, 2); shorter != nil {
+				result = shorter
+			} else {
+				result.literals = result.literals[:e.config.MaxLiterals]
+				partial = true
+			}
 		}
 		// Mark partial coverage when overflow truncated branches.
 		// Prefilter with partial coverage CANNOT be used in candidate loops
 		// (would miss unrepresented branches). Only safe as skip-ahead
 		// inside NFA/DFA engine (Rust approach: PikeVM integrates prefilter).
 		if overflowed {
-			result.partialCoverage = true
+			partial = true
 		}
+	}
+	if partial {
+		result.partialCoverage = true
 	}
 
 	return result
+}
+
+// shrinkToFit returns a copy of s with every literal cut to its first n bytes (inexact,
+// deduplicated), for the largest n in maxKeep..1 that leaves at most MaxLiterals literals.
+// Returns nil if no such n exists.
+//
+// Unlike dropping literals from the list, this keeps the set a necessary condition:
+// whatever starts with (or contains) a literal also starts with (contains) its first n bytes.
+func (e *Extractor) shrinkToFit(s *Seq, maxKeep int) *Seq {
+	t := s.Clone()
+	for keep := maxKeep; keep >= 1; keep-- {
+		t.KeepFirstBytes(keep)
+		e.markAllInexact(t)
+		t.Dedup()
+		if t.Len() <= e.config.MaxLiterals {
+			return t
+		}
+	}
+	return nil
 }
 
 // extractPrefixesConcat handles cross-product literal expansion for OpConcat.
@@ -336,8 +371,9 @@ func (e *Extractor) extractPrefixesConcat(re *syntax.Regexp, depth int) *Seq {
 		sub := re.Sub[i]
 		contribution := e.concatSubContribution(sub, depth)
 
-		if contribution == nil {
-			// Non-expandable sub-expression (wildcard, repetition, etc.)
+		if contribution.IsEmpty() {
+			// Non-expandable sub-expression (wildcard, repetition, etc.; also a
+			// case-folded literal whose variants do not fit MaxLiterals).
 			// Mark all accumulated literals as inexact and stop.
 			e.markAllInexact(acc)
 			break
@@ -345,6 +381,10 @@ func (e *Extractor) extractPrefixesConcat(re *syntax.Regexp, depth int) *Seq {
 
 		// Compute cross-product of accumulator with contribution
 		acc.CrossForward(contribution)
+		if contribution.IsPartialCoverage() {
+			// The contribution lost alternatives, so did the product.
+			acc.partialCoverage = true
+		}
 
 		// Enforce overflow limits
 		if acc.Len() > crossLimit || acc.Len() > e.config.MaxLiterals {
@@ -449,8 +489,9 @@ func (e *Extractor) expandAlternateContribution(alt *syntax.Regexp, depth int) *
 	overflowed := false
 	for _, sub := range alt.Sub {
 		seq := e.extractPrefixes(sub, depth+1)
-		if seq.IsEmpty() {
-			return nil // One branch has no literals, cannot expand
+		if seq.IsEmpty() || seq.IsPartialCoverage() {
+			// One branch has no literals (or not for all of its own branches), cannot expand
+			return nil
 		}
 
 		if overflowed {
@@ -477,7 +518,15 @@ func (e *Extractor) expandAlternateContribution(alt *syntax.Regexp, depth int) *
 		e.markAllInexact(result)
 		result.Dedup()
 		if result.Len() > e.config.MaxLiterals {
-			result.literals = result.literals[:e.config.MaxLiterals]
+			// Cutting the list drops branches (false negatives if used as a filter).
+			// Try shorter prefixes first; if they do not fit either, cut the list but
+			// say so, like extractPrefixesAlternate.
+			if shorter := e.shrinkToFit(result, 2); shorter != nil {
+				result = shorter
+			} else {
+				result.literals = result.literals[:e.config.MaxLiterals]
+				result.partialCoverage = true
+			}
 		}
 	}
 
@@ -544,12 +593,16 @@ func (e *Extractor) enforceMaxLiteralLen(s *Seq) {
 // and marks all as inexact.
 func (e *Extractor) handleCrossProductOverflow(s *Seq) *Seq {
 	s.KeepFirstBytes(4)
+	e.enforceMaxLiteralLen(s)
 	e.markAllInexact(s)
 	s.Dedup()
 
-	// If still over MaxLiterals after dedup, truncate the list
+	// If still over MaxLiterals after dedup, truncate the list. Matches that start with
+	// one of the dropped literals are no longer represented: mark partial coverage so
+	// that the set is not used as a necessary condition (see extractPrefixesAlternate).
 	if s.Len() > e.config.MaxLiterals {
 		s.literals = s.literals[:e.config.MaxLiterals]
+		s.partialCoverage = true
 	}
 	return s
 }
@@ -596,8 +649,8 @@ func (e *Extractor) extractSuffixes(re *syntax.Regexp, depth int) *Seq {
 		// Direct literal
 		bytes := runeSliceToBytes(re.Rune)
 		if len(bytes) > e.config.MaxLiteralLen {
-			// For suffix, take the LAST MaxLiteralLen bytes
-			bytes = bytes[len(bytes)-e.config.MaxLiteralLen:]
+			// For suffix, take the LAST MaxLiteralLen bytes (no longer the whole literal)
+			return NewSeq(NewLiteral(bytes[len(bytes)-e.config.MaxLiteralLen:], false))
 		}
 		return NewSeq(NewLiteral(bytes, true))
 
@@ -668,11 +721,13 @@ func (e *Extractor) extractSuffixes(re *syntax.Regexp, depth int) *Seq {
 				copy(newBytes, prefix)
 				copy(newBytes[len(prefix):], lit.Bytes)
 				// Truncate if too long
+				complete := lit.Complete
 				if len(newBytes) > e.config.MaxLiteralLen {
 					// For suffix, keep the last MaxLiteralLen bytes
 					newBytes = newBytes[len(newBytes)-e.config.MaxLiteralLen:]
+					complete = false
 				}
-				lits[j] = NewLiteral(newBytes, lit.Complete)
+				lits[j] = NewLiteral(newBytes, complete)
 			}
 			suffixes = NewSeq(lits...)
 
@@ -707,7 +762,12 @@ func (e *Extractor) extractSuffixes(re *syntax.Regexp, depth int) *Seq {
 
 	case syntax.OpCharClass:
 		// Character class expansion
-		return e.expandCharClass(re)
+		seq := e.expandCharClass(re)
+		if !seq.AllComplete() {
+			// Members were cut to their FIRST MaxLiteralLen bytes; those are not suffixes.
+			return NewSeq()
+		}
+		return seq
 
 	case syntax.OpCapture:
 		// Ignore capture, extract from content
@@ -798,12 +858,18 @@ func (e *Extractor) extractInner(re *syntax.Regexp, depth int) *Seq {
 			}
 			for i := 0; i < seq.Len(); i++ {
 				allLits = append(allLits, seq.Get(i))
-				if len(allLits) >= e.config.MaxLiterals {
-					return NewSeq(allLits...)
-				}
 			}
 		}
-		return NewSeq(allLits...)
+		result := NewSeq(allLits...)
+		if result.Len() > e.config.MaxLiterals {
+			// Every branch must stay represented (and every branch must be looked at: a later
+			// one may have no requirement at all). Shorter pieces of the literals are still
+			// required somewhere in the match; if they do not fit either, give up.
+			if result = e.shrinkToFit(result, 3); result == nil {
+				return NewSeq()
+			}
+		}
+		return result
 
 	case syntax.OpCharClass:
 		return e.expandCharClass(re)
@@ -893,7 +959,8 @@ func (e *Extractor) expandCaseFoldLiteral(runes []rune) *Seq {
 	}
 	result.Dedup()
 	if result.Len() > e.config.MaxLiterals {
-		result.literals = result.literals[:e.config.MaxLiterals]
+		// Cannot happen (findMaxCaseFoldPrefix bounds the product); never drop variants.
+		return NewSeq()
 	}
 	return result
 }
@@ -917,14 +984,22 @@ func (e *Extractor) generateCaseFoldVariants(foldSets [][]rune, prefixLen int) *
 	}
 
 	lits := make([]Literal, 0, len(variants))
+	truncated := false
 	for _, v := range variants {
 		b := runeSliceToBytes(v)
+		complete := true
 		if len(b) > e.config.MaxLiteralLen {
 			b = b[:e.config.MaxLiteralLen]
+			complete = false
+			truncated = true
 		}
-		lits = append(lits, NewLiteral(b, true))
+		lits = append(lits, NewLiteral(b, complete))
 	}
-	return NewSeq(lits...)
+	result := NewSeq(lits...)
+	if truncated {
+		result.Dedup()
+	}
+	return result
 }
 
 // findMaxCaseFoldPrefix finds the maximum prefix length where the cross-product
@@ -988,26 +1063,34 @@ func (e *Extractor) expandCharClass(re *syntax.Regexp) *Seq {
 		}
 	}
 
+	// Respect MaxLiterals limit: expanding only some of the members would lose the others
+	if count > e.config.MaxLiterals {
+		return NewSeq()
+	}
+
 	// Expand the class
 	var lits []Literal
+	truncated := false
 	for i := 0; i < len(re.Rune); i += 2 {
 		lo, hi := re.Rune[i], re.Rune[i+1]
 		for r := lo; r <= hi; r++ {
 			bytes := []byte(string(r))
+			complete := true
 			// Truncate if exceeds MaxLiteralLen
 			if len(bytes) > e.config.MaxLiteralLen {
 				bytes = bytes[:e.config.MaxLiteralLen]
+				complete = false
+				truncated = true
 			}
-			lits = append(lits, NewLiteral(bytes, true))
-
-			// Respect MaxLiterals limit
-			if len(lits) >= e.config.MaxLiterals {
-				return NewSeq(lits...)
-			}
+			lits = append(lits, NewLiteral(bytes, complete))
 		}
 	}
 
-	return NewSeq(lits...)
+	result := NewSeq(lits...)
+	if truncated {
+		result.Dedup()
+	}
+	return result
 }
 
 // InnerLiteralInfo contains information about an inner literal and its position.
